@@ -9,6 +9,8 @@ def main(argv):
         print("usage: check <ID> [quick|thorough]")
         return 2
     pid = argv[0].upper()
+    if len(argv) > 2 and argv[1] == "--replay":
+        return core.replay(pid, argv[2])
     tier = argv[1] if len(argv) > 1 else os.environ.get("VERIF_TIER", "quick")
     if tier not in ("quick", "thorough"):
         tier = "quick"
